@@ -139,7 +139,7 @@ structure RuleSpec where
   cond : Cond
 
 def mkParams (rs : List RuleSpec) (imports : List Nat) (maxMatches : Nat) (walking : Nat → Bool) (F : Facts)
-    (single : List Nat := []) : Params :=
+    (single : List Nat := []) (chains : List (Nat × ChainInfo) := []) : Params :=
   { rules := rs.map (·.rule)
     imports := imports
     strRule := fun s => ((enum rs).find? fun p => s ∈ p.2.rule.strings).map (·.1) |>.getD 0
@@ -147,6 +147,8 @@ def mkParams (rs : List RuleSpec) (imports : List Nat) (maxMatches : Nat) (walki
     cands := fun key => (F.blocks key).map (·.cands) |>.getD []
     ep := fun pm key _ _ => (F.blocks key).bind (fun bf => if pm then bf.epPM else bf.ep)
     singleMatch := fun s => s ∈ single
+    chain := fun s => (chains.find? fun p => p.1 == s).map (·.2)
+    pruneSlack := 1024 + 4
     scanErr := fun key => (F.blocks key).bind (·.err)
     cond := fun i v => match rs[i]? with | some r => condProg F r.cond v | none => .ret false
     modParse := fun pm m =>
